@@ -17,6 +17,8 @@ points are read off.  The oracle shares no code with the model.
   lines <pairs> <ox> <oy> <oz> <sh> <box>     per-case text of one box (model and spec)
   case  <T> <12 numbers>                         one case; numbers are `n/d`, `n` or `x<16 hex digits of a double>`
   sweep                                       float guard sweep oracle, blocks read from stdin (see below)
+  nd <boxes> <R> <ox> <oy> <oz>               non-dyadic direction lattice, model at Float/Float32 bit for bit (see below)
+  ndlines <boxes> <R> <ox> <oy> <oz> <blk> <d|f>   per-case text of one block
 -/
 open ImathVerif.RayBox
 
@@ -492,6 +494,144 @@ partial def readSweep (h : IO.FS.Stream) (B : SweepBlock) (acc : SweepAcc) : IO 
     readSweep h B (acc.merge a)
   | _ => readSweep h B acc
 
+/-! ## Non-dyadic direction lattice (`nd`): model evaluated in FLOATING POINT
+
+Directions with components in {0, ±1, ±3, ±5, ±7}: quotients are no longer exactly
+representable.  (a) hit/miss of the real code must still equal the exact oracle:
+every parameter is the correctly rounded quotient of two small integers, so equal
+rationals give equal floats and distinct ones keep their order.  (b) The model is
+executed at `Float` / `Float32` — same operations in the same order as the C++ —
+and compared BIT FOR BIT (results always, points when the result is true), so an
+algebraically neutral rewrite such as `d * (1/dir)` for `d / dir` changes bits.
+-/
+
+def tmaxF : Float := Float.ofBits 0x7fefffffffffffff
+def tmaxF32 : Float32 := Float32.ofBits 0x7f7fffff
+
+def ndVals : Array Int := #[0, 1, -1, 3, -3, 5, -5, 7, -7]
+
+structure ND where
+  boxes : Array (Array Int)   -- 6 ints each
+  R : Nat
+  ox : Int
+  oy : Int
+  oz : Int
+
+def parseND (boxes r ox oy oz : String) : ND :=
+  ⟨(boxes.splitOn ";").toArray.map (fun b => (b.splitOn ",").toArray.map String.toInt!), r.toNat!, ox.toInt!, oy.toInt!, oz.toInt!⟩
+
+def ND.side (n : ND) : Nat := 2 * n.R + 1
+def ND.nBlocks (n : ND) : Nat := n.boxes.size * n.side
+def ND.perBlock (n : ND) : Nat := n.side * n.side * 729
+
+/-- integer coordinates of case `ci` of block `blk`: (box min, box max, pos, dir); `none` for the zero direction -/
+def ND.case (n : ND) (blk ci : Nat) : Option (Array Int) :=
+  let bi := blk / n.side
+  let ix := blk % n.side
+  let di := ci % 729
+  if di == 0 then none else
+  let pi := ci / 729
+  let iy := pi / n.side
+  let iz := pi % n.side
+  let b := n.boxes[bi]!
+  let c (k : Nat) : Int := Int.ofNat k - Int.ofNat n.R
+  some #[b[0]! + n.ox, b[1]! + n.oy, b[2]! + n.oz, b[3]! + n.ox, b[4]! + n.oy, b[5]! + n.oz,
+         c ix + n.ox, c iy + n.oy, c iz + n.oz,
+         ndVals[di / 81]!, ndVals[(di / 9) % 9]!, ndVals[di % 9]!]
+
+structure GOut where
+  feHit : Bool
+  e : Array UInt64
+  x : Array UInt64
+  isHit : Bool
+  ip : Array UInt64
+  isb : Bool
+
+section
+variable {α : Type} [Add α] [Sub α] [Mul α] [Div α] [Neg α] [LT α] [LE α]
+  [DecidableLT α] [DecidableLE α] [OfNat α 0] [OfNat α 1]
+
+@[specialize] def runG (T : α) (ofI : Int → α) (bits : α → UInt64) (v : Array Int) : GOut :=
+  let b : Box3 α := ⟨⟨ofI v[0]!, ofI v[1]!, ofI v[2]!⟩, ⟨ofI v[3]!, ofI v[4]!, ofI v[5]!⟩⟩
+  let r : Line3 α := ⟨⟨ofI v[6]!, ofI v[7]!, ofI v[8]!⟩, ⟨ofI v[9]!, ofI v[10]!, ofI v[11]!⟩⟩
+  let fe := findEntryAndExitPoints T r b ⟨ofI 1001, ofI 1002, ofI 1003⟩ ⟨ofI 2001, ofI 2002, ofI 2003⟩
+  let is := intersects T b r ⟨ofI 3001, ofI 3002, ofI 3003⟩
+  let isb := intersectsBool T b r ⟨ofI 3001, ofI 3002, ofI 3003⟩
+  let vb (p : V3 α) : Array UInt64 := #[bits p.x, bits p.y, bits p.z]
+  ⟨fe.1, vb fe.2.1, vb fe.2.2, is.1, vb is.2, isb⟩
+end
+
+def runF64 (v : Array Int) : GOut := runG tmaxF (fun i => Float.ofInt i) Float.toBits v
+def runF32 (v : Array Int) : GOut :=
+  runG tmaxF32 (fun i => (Float.ofInt i).toFloat32) (fun x => x.toFloat.toBits) v
+
+def tieBits (h : UInt64) (o : GOut) : UInt64 :=
+  let h := mixB h o.feHit
+  let h := if o.feHit then (o.e ++ o.x).foldl mix h else h
+  let h := mixB h o.isHit
+  let h := if o.isHit then o.ip.foldl mix h else h
+  mixB h o.isb
+
+def ndRat (v : Array Int) : Line3 Q × Box3 Q :=
+  let q (i : Nat) : Q := mkRat v[i]! 1
+  (⟨⟨q 6, q 7, q 8⟩, ⟨q 9, q 10, q 11⟩⟩, ⟨⟨q 0, q 1, q 2⟩, ⟨q 3, q 4, q 5⟩⟩)
+
+structure NDSum where
+  tie64 : UInt64
+  tie32 : UInt64
+  bools : UInt64
+  nFe : Nat
+  nIs : Nat
+  nGraze : Nat      -- line hits with a single-parameter interval (edge / corner touch, flat boxes)
+deriving Inhabited
+
+def ND.runBlock (n : ND) (blk : Nat) : NDSum := Id.run do
+  let mut t64 : UInt64 := 1469598103934665603
+  let mut t32 : UInt64 := 1469598103934665603
+  let mut hb : UInt64 := 1469598103934665603
+  let mut nFe := 0
+  let mut nIs := 0
+  let mut nG := 0
+  for ci in [0:n.perBlock] do
+    match n.case blk ci with
+    | none => pure ()
+    | some v =>
+      t64 := tieBits t64 (runF64 v)
+      t32 := tieBits t32 (runF32 v)
+      let (r, b) := ndRat v
+      let l := lineIval r b
+      let y := rayIval r b
+      hb := mixB (mixB hb l.isSome) y.isSome
+      if l.isSome then nFe := nFe + 1
+      if y.isSome then nIs := nIs + 1
+      match l with
+      | some i => if !i.loInf && !i.hiInf && i.lo == i.hi then nG := nG + 1
+      | none => pure ()
+  return ⟨t64, t32, hb, nFe, nIs, nG⟩
+
+def hx (u : UInt64) : String := String.ofList (Nat.toDigits 16 u.toNat)
+def gLine (o : GOut) : String :=
+  let pv (a : Array UInt64) : String := ",".intercalate (a.toList.map hx)
+  s!"fe={bStr o.feHit} entry={if o.feHit then pv o.e else "-"} exit={if o.feHit then pv o.x else "-"} is={bStr o.isHit} ip={if o.isHit then pv o.ip else "-"} isb={bStr o.isb}"
+
+def runTasksG {β : Type} [Inhabited β] (nt : Nat) (lo hi : Nat) (f : Nat → β) : IO (Array β) := do
+  let tasks ← (List.range nt).mapM fun t => IO.asTask (prio := .dedicated) do
+    let mut acc : Array β := #[]
+    let mut i := lo + t
+    while i < hi do
+      acc := acc.push (f i)
+      i := i + nt
+    return acc
+  let mut arrs : Array (Array β) := #[]
+  for t in tasks do
+    match t.get with
+    | .ok a => arrs := arrs.push a
+    | .error e => throw e
+  let mut out : Array β := #[]
+  for i in [0:hi - lo] do
+    out := out.push (arrs[i % nt]!)[i / nt]!
+  return out
+
 /-! ## main -/
 
 def runTasks (nt : Nat) (lo hi : Nat) (f : Nat → BoxSummary) : IO (Array BoxSummary) := do
@@ -543,6 +683,21 @@ def main (args : List String) : IO Unit := do
       let r : Line3 Q := ⟨⟨a[6]!, a[7]!, a[8]!⟩, ⟨a[9]!, a[10]!, a[11]!⟩⟩
       out.putStrLn s!"M {modelLine (runModel T r b)}"
       out.putStrLn s!"S {specLine (spec r b)}"
+  | ["nd", boxes, r, ox, oy, oz] =>
+    let n := parseND boxes r ox oy oz
+    let res ← runTasksG 16 0 n.nBlocks (fun blk => n.runBlock blk)
+    for i in [0:n.nBlocks] do
+      let s := res[i]!
+      out.putStrLn s!"{i} {s.tie64.toNat} {s.tie32.toNat} {s.bools.toNat} {s.nFe} {s.nIs} {s.nGraze}"
+  | ["ndlines", boxes, r, ox, oy, oz, blk, ft] =>
+    let n := parseND boxes r ox oy oz
+    for ci in [0:n.perBlock] do
+      match n.case blk.toNat! ci with
+      | none => pure ()
+      | some v =>
+        let o := if ft == "f" then runF32 v else runF64 v
+        let (rr, b) := ndRat v
+        out.putStrLn s!"{ci} in={" ".intercalate (v.toList.map toString)} | M {gLine o} | S fe={bStr (lineIval rr b).isSome} is={bStr (rayIval rr b).isSome}"
   | ["sweep"] =>
     let h ← IO.getStdin
     let B0 : SweepBlock := ⟨tmaxDouble, mkRat 1 1000000000, ⟨⟨0,0,0⟩,⟨0,0,0⟩⟩, #[], #[], #[], #[], #[], #[], "", "-", 53⟩
